@@ -282,3 +282,30 @@ Fixpoint expand_all (w : wstate) (ops : list wop) : list op :=
 
 Definition wrun (ops : list wop) : sys := run (expand_all [] ops) (sys0 true).
 Definition wobserve (cache : bool) (ops : list wop) : list Z := observe cache (expand_all [] ops).
+
+(* ---------------------------------------------------------------- End-of-RIB
+   Peer._main: send_eor := True at establishment; after every send opportunity of the loop
+   (_send_route_updates, which may create a generator and/or consume it), _send_eor_messages sends the
+   markers iff no generator is live and send_eor is still set, and clears it.  The state in which the
+   markers go out is recorded. *)
+Record esys := { base : sys; eor_due : bool; eor_log : list sys }.
+
+Definition is_send_op (o : op) : bool := match o with Start | Emit => true | _ => false end.
+
+Definition estep (es : esys) (o : op) : esys :=
+  let b' := step (base es) o in
+  let due := match o with
+             | Establish => if up (base es) then eor_due es else true
+             | Drop => false
+             | _ => eor_due es
+             end in
+  let fire := due && is_send_op o && up b' && (match gen (r b') with [] => true | _ => false end) in
+  {| base := b'; eor_due := due && negb fire; eor_log := if fire then eor_log es ++ [b'] else eor_log es |}.
+
+Definition esys0 (cache : bool) : esys := {| base := sys0 cache; eor_due := true; eor_log := [] |}.
+Definition erun (ops : list op) (es : esys) : esys := fold_left estep ops es.
+
+(* nothing is queued for index k *)
+Definition quiet (s : rib) (k : Z) : Prop :=
+  aget Z.eqb k (new_nlri s) = None /\ ~ In k (akeys (pend_w s)) /\
+  (forall x, In x (refresh_routes s) -> ridx x <> k).
